@@ -7,6 +7,8 @@ def run(req):
     a = req.get("args", {})
     if fn in ("trajgrad.trap_grad", "trajgrad.min_trap_grad"):
         return _trap(fn, a)
+    if fn == "samp.poisson":
+        return _poisson(a)
     if fn == "conv.check":
         return _conv(a)
     if fn == "interp.check":
@@ -1062,3 +1064,48 @@ def _conv(a):
             if abs(l2 - r2) > 1e-8 * max(1, abs(l2)):
                 bad.append("convolve_filter_adjoint is not the adjoint w.r.t. the filter: %s vs %s" % (l2, r2))
     return dict(reproduced=bool(bad), detail="; ".join(bad) or "definition and both adjoints hold")
+
+
+# ----------------------------------------------------------------------------- C18 poisson
+def _poisson(a):
+    import sigpy.mri as mr
+    shape = tuple(a["shape"])
+    accel, calib = float(a["accel"]), tuple(a.get("calib", (0, 0)))
+    tol, cc, seed = float(a.get("tol", 0.1)), bool(a.get("crop_corner", True)), a.get("seed", 0)
+    dtype = np.dtype(a.get("dtype", "complex128"))
+    np.random.seed(int(a.get("prior_state_seed", 123)))
+    before = np.random.get_state()
+    bad = []
+    try:
+        mask = mr.poisson(shape, accel, calib=calib, crop_corner=cc, seed=seed, tol=tol, dtype=dtype)
+    except ValueError as e:
+        after = np.random.get_state()
+        same = all(np.array_equal(x, y) if isinstance(x, np.ndarray) else x == y for x, y in zip(before, after))
+        return dict(reproduced=not same, detail=("raised ValueError (allowed): %s" % str(e)[:80]) + ("" if same else "; numpy global RNG state changed"), raised=True)
+    after = np.random.get_state()
+    if not all(np.array_equal(x, y) if isinstance(x, np.ndarray) else x == y for x, y in zip(before, after)):
+        bad.append("numpy global RNG state changed")
+    if mask.shape != shape or mask.dtype != dtype:
+        bad.append("shape/dtype %s %s" % (mask.shape, mask.dtype))
+    m = np.asarray(mask)
+    if not np.all((m == 0) | (m == 1)):
+        bad.append("mask is not binary")
+    ny, nx = shape
+    act = nx * ny / max(1e-30, float(np.sum(m.real)))
+    if abs(act - accel) >= tol:
+        bad.append("acceleration %g not within %g of %g" % (act, tol, accel))
+    y0, y1 = int(ny / 2 - calib[-2] / 2), int(ny / 2 + calib[-2] / 2)
+    x0, x1 = int(nx / 2 - calib[-1] / 2), int(nx / 2 + calib[-1] / 2)
+    blk = m[y0:y1, x0:x1]
+    if blk.size and not np.all(blk == 1):
+        bad.append("calibration: %d of %d calibration points are not sampled" % (int(np.sum(blk != 1)), blk.size))
+    if cc and calib == (0, 0):
+        yy, xx = np.mgrid[:ny, :nx]
+        rr = ((xx - nx / 2) / (nx / 2)) ** 2 + ((yy - ny / 2) / (ny / 2)) ** 2
+        if np.any((m == 1) & (rr >= 1)):
+            bad.append("sample outside the inscribed ellipse")
+    if seed is not None:
+        m2 = mr.poisson(shape, accel, calib=calib, crop_corner=cc, seed=seed, tol=tol, dtype=dtype)
+        if not np.array_equal(m2, mask):
+            bad.append("same arguments and seed gave a different mask")
+    return dict(reproduced=bool(bad), detail="; ".join(bad) or "all clauses hold")
